@@ -40,6 +40,8 @@ def seeded_entries():
         if os.path.exists(meta):
             m = json.load(open(meta))
             props = m["property"] if isinstance(m["property"], list) else [m["property"]]
+            if m.get("equivalent_since"):
+                props = []                   # behaviour-preserving since the named fix commit (see meta.json): nothing is expected to go red
             out[name] = dict(props=props, what=m.get("summary", ""), patch=os.path.join(d, name, "patch.diff"))
     return out
 
